@@ -1,12 +1,16 @@
 import P2sh.Model.Builtins
 import P2sh.Spec.Builtins
+import P2sh.Props.C08
+import P2sh.Props.C10
 /-!
 # C11 — pure builtins: round-trip laws (on the model of `src/builtins/functions.rs`)
 
 * `decode_encode` — `decode_utf8(encode_utf8(s)) == s` for every string;
 * `len_encode`    — `len(encode_utf8(s)) == len(s)`;
 * `join_chars`    — `join(chars(s)) == s`;
-* `is_error_total`, `wrong_arity_is_error` — contract rows that hold for every argument list.
+* `is_error_total`, `wrong_arity_is_error` — contract rows that hold for every argument list;
+* `builtin_contract` — the whole table: the model refines `Spec.Builtins.call` for every name and
+  every argument list (hypotheses name the rows they exclude); `sort_sorted_perm`, `sort_ints`.
 
 `float(str(x)) == x` depends on Rust's shortest round-trip float printing/parsing, which is
 not modelled: it is exercised on the implementation only (labelled as a test in the evidence).
@@ -14,6 +18,7 @@ not modelled: it is exercised on the implementation only (labelled as a test in 
 -/
 namespace P2sh.Props.C11
 open P2sh P2sh.Builtins
+open P2sh.Spec.Builtins (Out)
 
 theorem decodeUtf8_utf8Bytes (s : String) : decodeUtf8 (utf8Bytes s) = some s := by
   simp [decodeUtf8, utf8Bytes, String.fromUTF8?, String.fromUTF8, s.isValidUTF8]
@@ -201,5 +206,709 @@ theorem int_str_call (n : Int64) :
 
 example : (match call "str" [.int (-42)] with | .ok s => call "int" [s] | r => r) = .ok (.int (-42)) :=
   int_str_call _
+
+/-! # The contract table (`builtin_contract`) -/
+
+def Refines (m : Res) : Out → Prop
+  | .value v => m = .ok v
+  | .mutate ret nf => m = .mutated ret nf
+  | .error => ∃ msg, m = .err msg
+  | .okAny => (∃ v, m = .ok v) ∨ m = .unmodelled
+  | .any => ∀ msg, m ≠ .panic msg
+
+theorem refines_val (v : Val) : Refines (.ok v) (.value v) := rfl
+theorem refines_mut (a b : Val) : Refines (.mutated a b) (.mutate a b) := rfl
+theorem refines_err (m : String) : Refines (.err m) .error := ⟨m, rfl⟩
+theorem refines_okAny (v : Val) : Refines (.ok v) .okAny := .inl ⟨v, rfl⟩
+theorem refines_skip : Refines .unmodelled .okAny := .inr rfl
+theorem refines_any (m : Res) (h : ∀ msg, m ≠ .panic msg) : Refines m .any := h
+
+/-- a cell decided by evaluation of both tables -/
+macro "cell" : tactic => `(tactic| first
+  | exact refines_val _ | exact refines_mut _ _ | exact refines_err _ | exact refines_okAny _
+  | exact refines_skip | exact refines_any _ (C08.builtins_no_panic _ _)
+  | exact refines_any _ (fun _ h => Res.noConfusion h))
+
+/-- split an argument list into its shapes up to three arguments, and each argument into its kind,
+as far as needed to decide the cell -/
+theorem byteArray_size (bs : ByteArray) : bs.size = bs.data.toList.length := by
+  cases bs; rfl
+
+theorem byteArray_toList_loop (bs : ByteArray) : ∀ (k i : Nat) (r : List UInt8), bs.size - i = k →
+    ByteArray.toList.loop bs i r = r.reverse ++ bs.data.toList.drop i := by
+  intro k
+  induction k with
+  | zero =>
+    intro i r h
+    unfold ByteArray.toList.loop
+    have : ¬ i < bs.size := by omega
+    simp only [this, if_false]
+    have : bs.data.toList.length ≤ i := by rw [← byteArray_size]; omega
+    rw [List.drop_eq_nil_of_le this, List.append_nil]
+  | succ k ih =>
+    intro i r h
+    unfold ByteArray.toList.loop
+    have hi : i < bs.size := by omega
+    simp only [hi, if_true]
+    rw [ih (i + 1) _ (by omega)]
+    have hlen : i < bs.data.toList.length := by rw [← byteArray_size]; exact hi
+    rw [List.drop_eq_getElem_cons hlen]
+    have hlen' : i < bs.data.size := by simpa using hlen
+    have : bs.get! i = bs.data.toList[i] := by
+      show bs.data[i]! = _
+      rw [getElem!_pos bs.data i hlen']; simp
+    rw [this, List.reverse_cons, List.append_assoc]; rfl
+
+theorem byteArray_toList (bs : ByteArray) : bs.toList = bs.data.toList := by
+  unfold ByteArray.toList
+  rw [byteArray_toList_loop bs _ 0 [] rfl]; simp
+
+/-! decimal text -/
+theorem digitChar_eq (d : Nat) (h : d < 10) : digitChar d = Nat.digitChar d := by
+  have : ∀ d : Fin 10, digitChar d.val = Nat.digitChar d.val := by decide
+  exact this ⟨d, h⟩
+
+theorem natDigits_eq (fuel : Nat) : ∀ n, n < fuel → natDigits fuel n = Nat.toDigits 10 n := by
+  induction fuel with
+  | zero => intro n h; omega
+  | succ fuel ih =>
+    intro n h
+    unfold natDigits
+    rw [Nat.toDigits_eq_if (by decide)]
+    split
+    · rename_i h10; rw [digitChar_eq n h10]
+    · rw [ih (n / 10) (by omega), digitChar_eq (n % 10) (by omega)]
+
+theorem showNat_eq (n : Nat) : showNat n = toString n := by
+  rw [Nat.toString_eq_repr, Nat.repr_eq_ofList_toDigits, showNat, natDigits_eq _ _ (by omega)]
+
+theorem showInt_eq (i : Int) : showInt i = toString i := by
+  show _ = Int.repr i
+  unfold showInt Int.repr
+  cases i with
+  | ofNat m => simp [showNat_eq]
+  | negSucc m =>
+    have : Int.negSucc m < 0 := Int.negSucc_lt_zero m
+    simp [this, showNat_eq]
+
+
+/-! join -/
+theorem intercalate_singletons (d : String) : ∀ cs : List Char,
+    d.intercalate (cs.map String.singleton) = String.ofList (joinCharsL d.toList cs)
+  | [] => by simp only [List.map_nil, String.intercalate_nil, joinCharsL]
+  | [c] => by
+    simp only [List.map_cons, List.map_nil, String.intercalate_singleton, joinCharsL]
+    exact String.singleton_eq_ofList
+  | c :: c' :: rest => by
+    have ih := intercalate_singletons d (c' :: rest)
+    simp only [List.map_cons] at ih ⊢
+    rw [String.intercalate_cons_cons, ih]
+    apply String.toList_inj.mp
+    simp only [joinCharsL, String.toList_append, String.toList_singleton, String.toList_ofList,
+      List.cons_append, List.nil_append]
+
+/-! characters from numbers -/
+theorem charFromU32_valid (n : Nat) (h : n < 0xd800 ∨ (0xdfff < n ∧ n < 0x110000)) :
+    charFromU32 n = some (Char.ofNat n) := by
+  unfold charFromU32
+  rw [dif_pos h]
+  congr 1
+  apply Char.ext
+  have hv : n.isValidChar := h
+  simp only [Char.ofNat, hv, dif_pos, Char.ofNatAux]
+  apply UInt32.toNat_inj.mp
+  show (UInt32.ofNat n).toNat = n
+  rw [UInt32.toNat_ofNat']
+  have : n < 1114112 := by rcases h with h | h <;> omega
+  omega
+
+theorem i64AsU32_small (n : Int64) (h0 : 0 ≤ n.toInt) (h1 : n.toInt < 4294967296) :
+    i64AsU32 n = n.toInt.toNat := by
+  unfold i64AsU32
+  have : n.toUInt64.toNat = n.toInt.toNat := by
+    have h := Int64.toInt_toBitVec n
+    have h2 := BitVec.toInt_eq_toNat_cond n.toBitVec
+    have h3 : n.toBitVec.toNat < 2 ^ 64 := n.toBitVec.isLt
+    show n.toBitVec.toNat = _
+    rw [h] at h2
+    split at h2 <;> omega
+  rw [this]; omega
+
+/-! `int` of a string -/
+theorem parseDecimal?_eq (s : String) : Spec.Builtins.parseDecimal? s =
+    if (signSplit s.toList).2.isEmpty || !(signSplit s.toList).2.all Char.isDigit then none
+    else
+      let n : Nat := (signSplit s.toList).2.foldl (fun a c => a * 10 + (c.toNat - 48)) 0
+      some (if (signSplit s.toList).1 then - (n : Int) else n) := rfl
+
+theorem foldlM_digits : ∀ (ds : List Char) (a : Nat), ds.all Char.isDigit = true →
+    ds.foldlM (fun acc c => if c.isDigit then some (acc * 10 + (c.toNat - 48)) else none) a =
+      some (ds.foldl (fun a c => a * 10 + (c.toNat - 48)) a)
+  | [], a, _ => rfl
+  | c :: ds, a, h => by
+    simp only [List.all_cons, Bool.and_eq_true] at h
+    simp only [List.foldlM_cons, h.1, if_true, List.foldl_cons]
+    exact foldlM_digits ds _ h.2
+
+theorem parseI64_of_spec (s : String) (n : Int) (h : Spec.Builtins.parseDecimal? s = some n)
+    (hr : Spec.Builtins.i64Range n = true) : parseI64 s = some (Int64.ofInt n) := by
+  rw [parseDecimal?_eq] at h
+  rw [parseI64_eq]
+  split at h
+  · cases h
+  · rename_i hc
+    simp only [Bool.or_eq_true, Bool.not_eq_true', not_or, Bool.not_eq_false] at hc
+    have hne : (signSplit s.toList).2 ≠ [] := by
+      intro e; rw [e] at hc; simp at hc
+    have hd : parseDigits (signSplit s.toList).2 =
+        some ((signSplit s.toList).2.foldl (fun a c => a * 10 + (c.toNat - 48)) 0) := by
+      unfold parseDigits
+      split
+      · rename_i e; exact absurd e hne
+      · exact foldlM_digits _ 0 hc.2
+    simp only [Option.some.injEq] at h
+    simp only [Spec.Builtins.i64Range, Bool.and_eq_true, decide_eq_true_eq] at hr
+    simp only [hd, h, hr, and_self, if_true]
+
+
+macro "cells" : tactic => `(tactic|
+  (intro args
+   rcases args with _ | ⟨a, _ | ⟨b, _ | ⟨c, rest⟩⟩⟩
+   · cell
+   · first | cell | (cases a <;> cell)
+   · first | cell | (cases a <;> first | cell | (cases b <;> cell))
+   · first | cell | (cases a <;> first | cell | (cases b <;> first | cell | (cases c <;> first | cell | (cases rest <;> cell))))))
+
+theorem contract_len : ∀ args, Refines (call "len" args) (Spec.Builtins.call "len" args) := by cells
+theorem contract_first : ∀ args, Refines (call "first" args) (Spec.Builtins.call "first" args) := by cells
+theorem contract_last : ∀ args, Refines (call "last" args) (Spec.Builtins.call "last" args) := by cells
+theorem contract_rest : ∀ args, Refines (call "rest" args) (Spec.Builtins.call "rest" args) := by cells
+theorem contract_push : ∀ args, Refines (call "push" args) (Spec.Builtins.call "push" args) := by cells
+theorem contract_is_error : ∀ args, Refines (call "is_error" args) (Spec.Builtins.call "is_error" args) := by cells
+theorem contract_chars : ∀ args, Refines (call "chars" args) (Spec.Builtins.call "chars" args) := by cells
+theorem contract_round : ∀ args, Refines (call "round" args) (Spec.Builtins.call "round" args) := by cells
+theorem contract_float : ∀ args, Refines (call "float" args) (Spec.Builtins.call "float" args) := by cells
+
+theorem contract_pop : ∀ args, Refines (call "pop" args) (Spec.Builtins.call "pop" args) := by
+  intro args
+  rcases args with _ | ⟨a, _ | ⟨b, rest⟩⟩
+  · cell
+  · cases a
+    case arr i xs =>
+      show Refines (match xs.getLast? with | some v => .mutated v (.arr i xs.dropLast) | none => .ok .null)
+        (match xs.getLast? with | some v => .mutate v (.arr i xs.dropLast) | none => .any)
+      cases xs.getLast? <;> cell
+    all_goals cell
+  · first | cell | (cases a <;> cell)
+
+theorem contract_get_arr (xs : List Val) (n : Int64) (i : Nat) :
+    Refines (call "get" [.arr i xs, .int n]) (Spec.Builtins.call "get" [.arr i xs, .int n]) := by
+  show Refines (.ok (if n < 0 then .null else xs.getD n.toNatClampNeg .null))
+    (if n.toInt < 0 then .any else .value (xs.getD n.toInt.toNat .null))
+  have hlt : (n < 0) ↔ n.toInt < 0 := by rw [Int64.lt_iff_toInt_lt]; exact Iff.rfl
+  by_cases h : n < 0
+  · simp only [h, hlt.mp h, if_true]; exact refines_any _ (fun _ h => Res.noConfusion h)
+  · have h' : ¬ n.toInt < 0 := fun x => h (hlt.mpr x)
+    simp only [h, h', if_false]; exact refines_val _
+
+/-! ### maps: the hash-table model is the association list of the specification (C10) -/
+
+/-- the hypothesis of the map rows: the probe for `k` meets an entry's key only under the same
+hash stream (`C10.HashOK`; it holds for all keys under `C10.FloatLaw`, and unconditionally for
+float-free keys — `C10.hash_respects_eq`, `C10.hash_respects_eq_floatfree`) -/
+def MapKeysOK (args : List Val) : Prop :=
+  ∀ i kvs k rest, args = .map i kvs :: k :: rest → ∀ e ∈ kvs, C10.HashOK e.1 k
+
+theorem mapKeysOK_of_law (law : C10.FloatLaw) (args : List Val) : MapKeysOK args :=
+  fun _ _ k _ _ e _ h => C10.hash_respects_eq law e.1 k h
+
+theorem contract_get_map (i : Nat) (kvs : List (Val × Val)) (k : Val) (h : ∀ e ∈ kvs, C10.HashOK e.1 k) :
+    Refines (call "get" [.map i kvs, k]) (Spec.Builtins.call "get" [.map i kvs, k]) := by
+  have hm : call "get" [.map i kvs, k] = .ok (HMap.get kvs k) := by cases k <;> rfl
+  have hs : Spec.Builtins.call "get" [.map i kvs, k] =
+      if k.isValidKey then .value ((Spec.Assoc.lookup kvs k).getD .null) else .any := by cases k <;> rfl
+  rw [hm, hs, HMap.get, C10.get?_refines kvs k h]
+  cases k.isValidKey
+  · exact refines_any _ (fun _ h => Res.noConfusion h)
+  · exact refines_val _
+
+theorem contract_get (args : List Val) (hk : MapKeysOK args) :
+    Refines (call "get" args) (Spec.Builtins.call "get" args) := by
+  rcases args with _ | ⟨a, _ | ⟨b, _ | ⟨c, rest⟩⟩⟩
+  · cell
+  · first | cell | (cases a <;> cell)
+  · cases a
+    case arr i xs =>
+      cases b
+      case int n => exact contract_get_arr xs n i
+      all_goals cell
+    case map i kvs => exact contract_get_map i kvs b (hk i kvs b [] rfl)
+    all_goals first | cell | (cases b <;> cell)
+  · first | cell | (cases a <;> first | cell | (cases b <;> cell))
+
+theorem contract_contains (args : List Val) (hk : MapKeysOK args) :
+    Refines (call "contains" args) (Spec.Builtins.call "contains" args) := by
+  rcases args with _ | ⟨a, _ | ⟨b, _ | ⟨c, rest⟩⟩⟩
+  · cell
+  · first | cell | (cases a <;> cell)
+  · cases a
+    case map i kvs =>
+      have hm : call "contains" [.map i kvs, b] = .ok (.bool (HMap.contains kvs b)) := by cases b <;> rfl
+      have hs : Spec.Builtins.call "contains" [.map i kvs, b] =
+          if b.isValidKey then .value (.bool (Spec.Assoc.lookup kvs b).isSome) else .any := by cases b <;> rfl
+      rw [hm, hs, HMap.contains, C10.get?_refines kvs b (hk i kvs b [] rfl)]
+      cases b.isValidKey
+      · exact refines_any _ (fun _ h => Res.noConfusion h)
+      · exact refines_val _
+    all_goals first | cell | (cases b <;> cell)
+  · first | cell | (cases a <;> first | cell | (cases b <;> cell))
+
+theorem contract_insert (args : List Val) (hk : MapKeysOK args) :
+    Refines (call "insert" args) (Spec.Builtins.call "insert" args) := by
+  rcases args with _ | ⟨a, _ | ⟨b, _ | ⟨c, _ | ⟨d, rest⟩⟩⟩⟩
+  · cell
+  · first | cell | (cases a <;> cell)
+  · first | cell | (cases a <;> first | cell | (cases b <;> cell))
+  · cases a
+    case map i kvs =>
+      have hm : call "insert" [.map i kvs, b, c] =
+          .mutated ((HMap.insert kvs b c).2.getD .null) (.map i (HMap.insert kvs b c).1) := by cases b <;> rfl
+      have hs : Spec.Builtins.call "insert" [.map i kvs, b, c] =
+          if b.isValidKey then
+            .mutate ((Spec.Assoc.insert kvs b c).2.getD .null) (.map i (Spec.Assoc.insert kvs b c).1)
+          else .any := by cases b <;> rfl
+      rw [hm, hs, C10.insert_refines kvs b c (hk i kvs b [c] rfl)]
+      cases b.isValidKey
+      · exact refines_any _ (fun _ h => Res.noConfusion h)
+      · exact refines_mut _ _
+    all_goals first | cell | (cases b <;> first | cell | (cases c <;> cell))
+  · first | cell | (cases a <;> first | cell | (cases b <;> first | cell | (cases c <;> first | cell | (cases d <;> cell))))
+
+
+/-! ### str -/
+
+/-- `Spec.Builtins.display?` is a `partial def`, hence an opaque constant for the kernel: the rows
+`str(null | int | bool | array)` are proved relative to its agreement with the model's `display` -/
+def DisplayAgrees (v : Val) : Prop := ∀ s, Spec.Builtins.display? v = some s → display v = some s
+
+theorem refines_display_okAny (v : Val) :
+    Refines (match display v with | some s => .ok (.str s) | none => .unmodelled) .okAny := by
+  cases display v
+  · exact refines_skip
+  · exact refines_okAny _
+
+theorem refines_display (v : Val) (h : DisplayAgrees v) :
+    Refines (match display v with | some s => .ok (.str s) | none => .unmodelled)
+      (match Spec.Builtins.display? v with | some s => .value (.str s) | none => .okAny) := by
+  cases hs : Spec.Builtins.display? v with
+  | none => exact refines_display_okAny v
+  | some s => rw [h s hs]; exact refines_val _
+
+theorem contract_str (args : List Val) (hd : ∀ v, args = [v] → DisplayAgrees v) :
+    Refines (call "str" args) (Spec.Builtins.call "str" args) := by
+  rcases args with _ | ⟨a, _ | ⟨b, rest⟩⟩
+  · cell
+  · have h := hd a rfl
+    cases a
+    case byte b =>
+      show Refines (.ok (.str (showNat b.toNat))) (.value (.str (toString b.toNat)))
+      rw [showNat_eq]; exact refines_val _
+    case null => exact refines_display _ h
+    case int n => exact refines_display _ h
+    case bool b => exact refines_display _ h
+    case arr i xs => exact refines_display _ h
+    case float f => exact refines_display_okAny (.float f)
+    case map i kvs => exact refines_display_okAny (.map i kvs)
+    all_goals cell
+  · first | cell | (cases a <;> cell)
+
+/-! ### int -/
+
+theorem contract_int_str (s : String) :
+    Refines (call "int" [.str s]) (Spec.Builtins.call "int" [.str s]) := by
+  show Refines (.ok (match parseI64 s with | some n => .int n | none => .null))
+    (match Spec.Builtins.parseDecimal? s with
+      | some n => if Spec.Builtins.i64Range n then .value (.int (Int64.ofInt n)) else .okAny
+      | none => .okAny)
+  cases h : Spec.Builtins.parseDecimal? s with
+  | none => exact refines_okAny _
+  | some n =>
+    dsimp only
+    cases hr : Spec.Builtins.i64Range n with
+    | false => rw [if_neg (by simp)]; exact refines_okAny _
+    | true => rw [parseI64_of_spec s n h hr, if_pos rfl]; exact refines_val _
+
+theorem contract_int : ∀ args, Refines (call "int" args) (Spec.Builtins.call "int" args) := by
+  intro args
+  rcases args with _ | ⟨a, _ | ⟨b, rest⟩⟩
+  · cell
+  · cases a
+    case str s => exact contract_int_str s
+    all_goals cell
+  · first | cell | (cases a <;> cell)
+
+/-! ### char, byte -/
+
+/-- rows where the implementation (and the model, which follows it) rejects a kind the
+documentation lists: `char` of a string or a boolean, `byte` of a string — recorded as known
+findings of C11 (`builtin=char argkinds=(s)|(t)|(f)`, `builtin=byte argkinds=(s)`); the
+specification demands "not a runtime error" there, the model yields one -/
+def knownFindingRow (name : String) (args : List Val) : Prop :=
+  (name = "char" ∧ ((∃ s, args = [.str s]) ∨ ∃ b, args = [.bool b])) ∨ (name = "byte" ∧ ∃ s, args = [.str s])
+
+theorem contract_char_int (n : Int64) :
+    Refines (call "char" [.int n]) (Spec.Builtins.call "char" [.int n]) := by
+  show Refines (.ok (match charFromU32 (i64AsU32 n) with | some c => .char c | none => .null))
+    (if 0 ≤ n.toInt ∧ n.toInt < 0x110000 ∧ ¬ (0xd800 ≤ n.toInt ∧ n.toInt ≤ 0xdfff)
+      then .value (.char (Char.ofNat n.toInt.toNat)) else .okAny)
+  by_cases h : 0 ≤ n.toInt ∧ n.toInt < 0x110000 ∧ ¬ (0xd800 ≤ n.toInt ∧ n.toInt ≤ 0xdfff)
+  · rw [if_pos h, i64AsU32_small n h.1 (by omega), charFromU32_valid _ (by omega)]
+    exact refines_val _
+  · rw [if_neg h]; exact refines_okAny _
+
+theorem contract_char (args : List Val) (hk : ¬ knownFindingRow "char" args) :
+    Refines (call "char" args) (Spec.Builtins.call "char" args) := by
+  rcases args with _ | ⟨a, _ | ⟨b, rest⟩⟩
+  · cell
+  · cases a
+    case int n => exact contract_char_int n
+    case byte b =>
+      show Refines (.ok (match charFromU32 b.toNat with | some c => .char c | none => .null))
+        (.value (.char (Char.ofNat b.toNat)))
+      have := b.toNat_lt
+      rw [charFromU32_valid _ (by omega)]; exact refines_val _
+    case str s => exact absurd (.inl ⟨rfl, .inl ⟨s, rfl⟩⟩) hk
+    case bool b => exact absurd (.inl ⟨rfl, .inr ⟨b, rfl⟩⟩) hk
+    all_goals cell
+  · first | cell | (cases a <;> cell)
+
+theorem char_toNat_ofNat (k : Nat) (h : k < 256) : (Char.ofNat k).toNat = k := by
+  have : ∀ k : Fin 256, (Char.ofNat k.val).toNat = k.val := by decide +kernel
+  exact this ⟨k, h⟩
+
+theorem contract_byte (args : List Val) (hk : ¬ knownFindingRow "byte" args) :
+    Refines (call "byte" args) (Spec.Builtins.call "byte" args) := by
+  rcases args with _ | ⟨a, _ | ⟨b, rest⟩⟩
+  · cell
+  · cases a
+    case int n =>
+      show Refines (.ok (match charFromU32 (i64AsU32 n) with | some c => .byte (UInt8.ofNat c.toNat) | none => .null))
+        (if 0 ≤ n.toInt ∧ n.toInt < 256 then .value (.byte (UInt8.ofNat n.toInt.toNat)) else .okAny)
+      by_cases h : 0 ≤ n.toInt ∧ n.toInt < 256
+      · rw [if_pos h, i64AsU32_small n h.1 (by omega), charFromU32_valid _ (by omega)]
+        simp only [char_toNat_ofNat n.toInt.toNat (by omega)]
+        exact refines_val _
+      · rw [if_neg h]; exact refines_okAny _
+    case char c =>
+      show Refines (.ok (.byte (UInt8.ofNat c.toNat)))
+        (if c.toNat < 256 then .value (.byte (UInt8.ofNat c.toNat)) else .okAny)
+      split
+      · exact refines_val _
+      · exact refines_okAny _
+    case str s => exact absurd (.inr ⟨rfl, s, rfl⟩) hk
+    all_goals cell
+  · first | cell | (cases a <;> cell)
+
+/-! ### tolower, toupper -/
+
+theorem refines_ite_okAny (c : Prop) [Decidable c] (v : Val) :
+    Refines (.ok v) (if c then .value v else .okAny) := by
+  split
+  · exact refines_val _
+  · exact refines_okAny _
+
+theorem contract_tolower : ∀ args, Refines (call "tolower" args) (Spec.Builtins.call "tolower" args) := by
+  intro args
+  rcases args with _ | ⟨a, _ | ⟨b, rest⟩⟩
+  · cell
+  · cases a
+    case char c => exact refines_ite_okAny _ _
+    case byte b => exact refines_ite_okAny _ _
+    case str s => exact refines_ite_okAny _ _
+    all_goals cell
+  · first | cell | (cases a <;> cell)
+
+theorem contract_toupper : ∀ args, Refines (call "toupper" args) (Spec.Builtins.call "toupper" args) := by
+  intro args
+  rcases args with _ | ⟨a, _ | ⟨b, rest⟩⟩
+  · cell
+  · cases a
+    case char c => exact refines_ite_okAny _ _
+    case byte b => exact refines_ite_okAny _ _
+    case str s => exact refines_ite_okAny _ _
+    all_goals cell
+  · first | cell | (cases a <;> cell)
+
+/-! ### join -/
+
+abbrev charOf : Val → Option Char := fun v => match v with | .char c => some c | _ => none
+
+theorem contract_join1 (i : Nat) (xs : List Val) :
+    Refines (call "join" [.arr i xs]) (Spec.Builtins.call "join" [.arr i xs]) := by
+  show Refines (match xs.mapM charOf with
+      | some cs => .ok (.str (String.ofList (joinCharsL "".toList cs)))
+      | none => .err "array should contain only chars")
+    (match xs.mapM charOf with
+      | some cs => .value (.str (String.ofList cs))
+      | none => .error)
+  cases xs.mapM charOf with
+  | none => exact refines_err _
+  | some cs =>
+    dsimp only
+    rw [show "".toList = [] from rfl, joinCharsL_nil]; exact refines_val _
+
+theorem contract_join2 (i : Nat) (xs : List Val) (d : String) (a : Val)
+    (hm : call "join" [.arr i xs, a] = match xs.mapM charOf with
+      | some cs => .ok (.str (String.ofList (joinCharsL d.toList cs)))
+      | none => .err "array should contain only chars")
+    (hs : Spec.Builtins.call "join" [.arr i xs, a] = match xs.mapM charOf with
+      | some cs => .value (.str (d.intercalate (cs.map String.singleton)))
+      | none => .error) :
+    Refines (call "join" [.arr i xs, a]) (Spec.Builtins.call "join" [.arr i xs, a]) := by
+  rw [hm, hs]
+  cases xs.mapM charOf with
+  | none => exact refines_err _
+  | some cs => dsimp only; rw [intercalate_singletons]; exact refines_val _
+
+theorem contract_join : ∀ args, Refines (call "join" args) (Spec.Builtins.call "join" args) := by
+  intro args
+  rcases args with _ | ⟨a, _ | ⟨b, _ | ⟨c, rest⟩⟩⟩
+  · cell
+  · cases a
+    case arr i xs => exact contract_join1 i xs
+    all_goals cell
+  · cases a
+    case arr i xs =>
+      cases b
+      case str s => exact contract_join2 i xs s _ rfl rfl
+      case char c => exact contract_join2 i xs (String.singleton c) _ rfl rfl
+      all_goals cell
+    all_goals first | cell | (cases b <;> cell)
+  · first | cell | (cases a <;> first | cell | (cases b <;> cell))
+
+/-! ### encode_utf8, decode_utf8 -/
+
+theorem contract_encode_utf8 : ∀ args,
+    Refines (call "encode_utf8" args) (Spec.Builtins.call "encode_utf8" args) := by
+  intro args
+  rcases args with _ | ⟨a, _ | ⟨b, rest⟩⟩
+  · cell
+  · cases a
+    case str s =>
+      show Refines (.ok (.arr 0 ((utf8Bytes s).map .byte))) (.value (.arr 0 (s.toUTF8.toList.map .byte)))
+      rw [byteArray_toList]; exact refines_val _
+    all_goals cell
+  · first | cell | (cases a <;> cell)
+
+abbrev byteOf : Val → Option UInt8 := fun v => match v with | .byte b => some b | _ => none
+
+theorem contract_decode_utf8 : ∀ args,
+    Refines (call "decode_utf8" args) (Spec.Builtins.call "decode_utf8" args) := by
+  intro args
+  rcases args with _ | ⟨a, _ | ⟨b, rest⟩⟩
+  · cell
+  · cases a
+    case arr i xs =>
+      show Refines (match xs.mapM byteOf with
+          | none => .err "array should contain only bytes"
+          | some bs => match decodeUtf8 bs with
+            | some s => .ok (.str s)
+            | none => .ok (.err "utf8"))
+        (match xs.mapM byteOf with
+          | some bs => (match String.fromUTF8? (ByteArray.mk bs.toArray) with
+              | some s => .value (.str s)
+              | none => .okAny)
+          | none => .error)
+      cases xs.mapM byteOf with
+      | none => exact refines_err _
+      | some bs =>
+        dsimp only [decodeUtf8]
+        cases String.fromUTF8? (ByteArray.mk bs.toArray) with
+        | none => exact refines_okAny _
+        | some s => exact refines_val _
+    all_goals cell
+  · first | cell | (cases a <;> cell)
+
+/-! ### sort -/
+
+theorem comparableAdj_of_all : ∀ xs : List Val,
+    (∀ a ∈ xs, ∀ b ∈ xs, (a.partialCmp b).isSome = true) → comparableAdj xs = true
+  | [], _ => rfl
+  | [_], _ => rfl
+  | a :: b :: rest, h => by
+    unfold comparableAdj
+    rw [h a List.mem_cons_self b (List.mem_cons_of_mem _ List.mem_cons_self), Bool.true_and]
+    exact comparableAdj_of_all (b :: rest) (fun x hx y hy =>
+      h x (List.mem_cons_of_mem _ hx) y (List.mem_cons_of_mem _ hy))
+
+theorem contract_sort_arr (i : Nat) (xs : List Val) :
+    Refines (call "sort" [.arr i xs]) (Spec.Builtins.call "sort" [.arr i xs]) := by
+  show Refines
+    (if (!comparableAdj xs || (match xs with | x :: _ => (x.partialCmp x).isNone | [] => false)) = true
+      then .err "array elements are not comparable"
+      else .mutated (.arr i (sortVals xs)) (.arr i (sortVals xs)))
+    (if xs.all (fun a => xs.all (fun b => (a.partialCmp b).isSome)) = true then
+      .mutate (.arr i (xs.mergeSort leVal)) (.arr i (xs.mergeSort leVal))
+    else .any)
+  by_cases h : xs.all (fun a => xs.all (fun b => (a.partialCmp b).isSome)) = true
+  · rw [if_pos h]
+    simp only [List.all_eq_true] at h
+    have h1 := comparableAdj_of_all xs h
+    rw [h1]
+    cases xs with
+    | nil => exact refines_mut _ _
+    | cons x rest =>
+      have := h x List.mem_cons_self x List.mem_cons_self
+      cases hx : x.partialCmp x with
+      | none => rw [hx] at this; cases this
+      | some o =>
+        have hn : (x.partialCmp x).isNone = false := by rw [hx]; rfl
+        simp only [hn, Bool.not_true, Bool.or_self, Bool.false_eq_true, if_false]
+        exact refines_mut _ _
+  · rw [if_neg h]
+    intro msg
+    (repeat' split) <;> (intro h; cases h)
+
+theorem contract_sort : ∀ args, Refines (call "sort" args) (Spec.Builtins.call "sort" args) := by
+  intro args
+  rcases args with _ | ⟨a, _ | ⟨b, rest⟩⟩
+  · cell
+  · cases a
+    case arr i xs => exact contract_sort_arr i xs
+    all_goals cell
+  · first | cell | (cases a <;> cell)
+
+/-! ## the table -/
+
+/-- the builtins the specification covers -/
+def covered : List String :=
+  ["len", "first", "last", "rest", "push", "pop", "get", "contains", "insert", "str", "int", "is_error",
+   "float", "char", "byte", "tolower", "toupper", "chars", "join", "encode_utf8", "decode_utf8", "sort", "round"]
+
+theorem spec_uncovered (name : String) (args : List Val) (h : name ∉ covered) :
+    Spec.Builtins.call name args = .any := by
+  unfold Spec.Builtins.call
+  split
+  all_goals first
+    | rfl
+    | exact absurd (by decide) h
+
+/-- **the contract table**: for every builtin name and every argument list the model of the
+builtin refines what the documentation fixes (`Spec.Builtins.call`): the documented value, the
+documented mutation of the first argument, a runtime error for every other arity / kind, "some
+value, not an error" (or the model declining) where a kind is documented without its result, and
+no panic where the documents are silent (including every name outside the table).
+
+Hypotheses (each names the rows it is about):
+* `hk`  — not one of the three known-finding rows (`knownFindingRow`);
+* `hd`  — `str` of null / integer / boolean / array: relative to `DisplayAgrees` (the spec's
+  `display?` is a `partial def`, opaque to the kernel);
+* `hm`  — `get` / `contains` / `insert` on a map: `MapKeysOK` (C10: equal keys hash alike). -/
+theorem builtin_contract (name : String) (args : List Val)
+    (hk : ¬ knownFindingRow name args)
+    (hd : name = "str" → ∀ v, args = [v] → DisplayAgrees v)
+    (hm : name = "get" ∨ name = "contains" ∨ name = "insert" → MapKeysOK args) :
+    Refines (call name args) (Spec.Builtins.call name args) := by
+  by_cases hc : name ∈ covered
+  · simp only [covered, List.mem_cons, List.mem_nil_iff, or_false] at hc
+    rcases hc with rfl | rfl | rfl | rfl | rfl | rfl | rfl | rfl | rfl | rfl | rfl | rfl | rfl | rfl | rfl |
+      rfl | rfl | rfl | rfl | rfl | rfl | rfl | rfl
+    · exact contract_len args
+    · exact contract_first args
+    · exact contract_last args
+    · exact contract_rest args
+    · exact contract_push args
+    · exact contract_pop args
+    · exact contract_get args (hm (.inl rfl))
+    · exact contract_contains args (hm (.inr (.inl rfl)))
+    · exact contract_insert args (hm (.inr (.inr rfl)))
+    · exact contract_str args (hd rfl)
+    · exact contract_int args
+    · exact contract_is_error args
+    · exact contract_float args
+    · exact contract_char args hk
+    · exact contract_byte args hk
+    · exact contract_tolower args
+    · exact contract_toupper args
+    · exact contract_chars args
+    · exact contract_join args
+    · exact contract_encode_utf8 args
+    · exact contract_decode_utf8 args
+    · exact contract_sort args
+    · exact contract_round args
+  · rw [spec_uncovered name args hc]
+    exact C08.builtins_no_panic name args
+
+/-- under the IEEE fact of C10 the map hypothesis is discharged -/
+theorem builtin_contract_of_law (law : C10.FloatLaw) (name : String) (args : List Val)
+    (hk : ¬ knownFindingRow name args) (hd : name = "str" → ∀ v, args = [v] → DisplayAgrees v) :
+    Refines (call name args) (Spec.Builtins.call name args) :=
+  builtin_contract name args hk hd (fun _ => mapKeysOK_of_law law args)
+
+/-- non-vacuity of the table: a value row, a mutation row, an error row, a conversion row -/
+example : Refines (call "int" [.str "-12"]) (.value (.int (Int64.ofInt (-12)))) :=
+  builtin_contract "int" [.str "-12"]
+    (by rintro (⟨h, -⟩ | ⟨h, -⟩) <;> exact absurd h (by decide))
+    (fun h => absurd h (by decide))
+    (fun h => by rcases h with h | h | h <;> exact absurd h (by decide))
+example : Refines (call "push" [.arr 7 [.int 1], .null]) (.mutate .null (.arr 7 [.int 1, .null])) :=
+  contract_push _
+example : Refines (call "len" [.int 1]) .error := contract_len _
+example : Refines (call "char" [.int 955]) (.value (.char 'λ')) := contract_char_int 955
+
+/-! ## sort -/
+
+/-- **`sort`**: the result is a permutation of the input, and it is sorted with respect to the
+model's order `leVal` (`a ≤ b` unless `partial_cmp` says `Greater`) whenever that order is
+transitive and total *on the elements of the array* (it is not on all values: NaN, and integers
+beyond 2^53 next to floats) -/
+theorem sort_sorted_perm (xs : List Val)
+    (htrans : ∀ a ∈ xs, ∀ b ∈ xs, ∀ c ∈ xs, leVal a b = true → leVal b c = true → leVal a c = true)
+    (htotal : ∀ a ∈ xs, ∀ b ∈ xs, (leVal a b || leVal b a) = true) :
+    (sortVals xs).Pairwise (fun a b => leVal a b = true) ∧ (sortVals xs).Perm xs := by
+  refine ⟨?_, List.mergeSort_perm xs leVal⟩
+  let r : {v // v ∈ xs} → {v // v ∈ xs} → Bool := fun a b => leVal a.1 b.1
+  have hmap : List.map Subtype.val (xs.attach.mergeSort r) = (List.map Subtype.val xs.attach).mergeSort leVal :=
+    List.map_mergeSort (fun a _ b _ => rfl)
+  rw [List.attach_map_subtype_val] at hmap
+  unfold sortVals
+  rw [← hmap, List.pairwise_map]
+  exact List.pairwise_mergeSort (le := r)
+    (fun a b c => htrans a.1 a.2 b.1 b.2 c.1 c.2) (fun a b => htotal a.1 a.2 b.1 b.2) xs.attach
+
+theorem leVal_int (a b : Int64) : leVal (.int a) (.int b) = decide (a.toInt ≤ b.toInt) := by
+  have h := C09.cmpOf_gt a b (C09.i64_gt_iff a b)
+  unfold leVal
+  simp only [Val.partialCmp]
+  by_cases hlt : b < a
+  · have hg : cmpOf a b = Ord3.gt := by simpa [hlt] using h
+    have : ¬ a.toInt ≤ b.toInt := by have := Int64.lt_iff_toInt_lt.mp hlt; omega
+    simp [hg, this]
+  · have hg : cmpOf a b ≠ Ord3.gt := by
+      intro e; rw [e] at h; simp [hlt] at h
+    have : a.toInt ≤ b.toInt := by
+      have : ¬ b.toInt < a.toInt := fun x => hlt (Int64.lt_iff_toInt_lt.mpr x)
+      omega
+    rw [decide_eq_true this]
+    cases hc : cmpOf a b with
+    | gt => exact absurd hc hg
+    | lt => rfl
+    | eq => rfl
+
+/-- integer arrays: `sort` yields the ascending permutation -/
+theorem sort_ints (ns : List Int64) :
+    (sortVals (ns.map .int)).Pairwise (fun a b => leVal a b = true) ∧ (sortVals (ns.map .int)).Perm (ns.map .int) := by
+  apply sort_sorted_perm
+  · intro a ha b hb c hc
+    obtain ⟨x, -, rfl⟩ := List.mem_map.mp ha
+    obtain ⟨y, -, rfl⟩ := List.mem_map.mp hb
+    obtain ⟨z, -, rfl⟩ := List.mem_map.mp hc
+    simp only [leVal_int, decide_eq_true_eq]; omega
+  · intro a ha b hb
+    obtain ⟨x, -, rfl⟩ := List.mem_map.mp ha
+    obtain ⟨y, -, rfl⟩ := List.mem_map.mp hb
+    simp only [leVal_int, Bool.or_eq_true, decide_eq_true_eq]; omega
+
+example : (sortVals [.int 3, .int (-1), .int 2]).Perm [.int 3, .int (-1), .int 2] := (sort_ints [3, -1, 2]).2
 
 end P2sh.Props.C11
